@@ -224,6 +224,17 @@ def check_large_scalars(rep, tier):
                 inputs.append(('real-nr3-%sE%d' % (m, e), tlv(0x09, b'\x03' + mk(m, e)), [None, univ.Real()]))
     for txt in ('0.' + '0' * 320 + '1', '-0.' + '0' * 310 + '49', '1' + '0' * 309 + '.5', '0.' + '0' * 400 + '7'):
         inputs.append(('real-nr2-long-%d' % len(txt), tlv(0x09, b'\x02' + txt.encode()), [None, univ.Real()]))
+    # character-form REALs whose text is not an ISO 6093 number but something Python's float()/int() understand or choke on:
+    # NaN / infinity spellings, underscores, blanks, hexadecimal, non-ASCII digits, empty and partial numbers; every form octet
+    texts = [b'nan', b'NaN', b'-nan', b'+NAN', b' nan ', b'inf', b'-inf', b'+Infinity', b'INFINITY', b'1_0', b'1_0.5', b' 1', b'1 ',
+             b'\t1\n', b'0x10', b'0b1', b'1e5', b'1E5', b'', b'+', b'-', b'.', b'e5', b'1e', b'1e+', b'1.5.2', b'--1', b'1,5',
+             '\u0661\u0662'.encode('utf-8'), '\uff11\uff12'.encode('utf-8'), b'\xff\xfe', b'1\x00', b'nan(0x1)', b'1e400', b'-1e400',
+             b'1' + b'0' * 400 + b'e-400', b'0e999999999999', b'1e999999999999', b'1e-999999999999']
+    for fo in (1, 2, 3, 0, 4, 0x3f):
+        for txt in texts:
+            inputs.append(('real-text-fo%d-%r' % (fo, txt[:12]), tlv(0x09, bytes([fo]) + txt), [None, univ.Real()]))
+            if fo == 3:
+                inputs.append(('rec-real-text-%r' % (txt[:12],), tlv(0x30, tlv(0x02, b'\x05') + tlv(0x09, bytes([fo]) + txt)), [None, rec]))
     for name, data, schemas in inputs:
         for schema in schemas:
             spec_s = 'large:%s/%s' % (name, type(schema).__name__ if schema is not None else 'none')
